@@ -274,6 +274,7 @@ pub fn arb_case(max_rounds: usize) -> impl Strategy<Value = Case> {
                 heartbeat,
                 social_stake,
                 loading_completed: true,
+                prune: 8,
             },
             treasury,
             issuance: vec![(0, 900_000_000), (0, 800_000_000), (0, 50_000_000), (1, 500_000_000), (2, 600_000_000), (3, 70_000_000), (1, 3_000), (2, 40)],
